@@ -151,33 +151,38 @@ def betweenWalk (bg : Bg P B M) (from? : Option (Int × Int)) (xyz : P) : Except
       | .enclosing c p b => .ok (some (c, p, b))
     else .ok none
 
+/-- the two walks in order: the second is only tried when the first did not end enclosing -/
+def betweenWalks (bg : Bg P B M) (n0 n1 : Option (Int × Int)) (xyz : P) : Except Unit (Option (Int × Int × B)) :=
+  match betweenWalk bg n0 xyz with
+  | .error e => .error e
+  | .ok (some r) => .ok (some r)
+  | .ok none => betweenWalk bg n1 xyz
+
+/-- the part of `ref_interp_locate_between` after the walks: store the enclosing agent's result, else (serial)
+    the sequential search, which records the local rank as the donor's part (/repo 7d5a551) -/
+def betweenFinish (bg : Bg P B M) (s : NodeSt P B M) (w : Option (Int × Int × B)) : Status × NodeSt P B M :=
+  let s1 := match w with
+    | some (c, p, b) => { s with cell := c, part := p, bary := b }
+    | none => s
+  if !bg.para ∧ s1.cell = EMPTY then
+    match bg.seq s1.xyz with
+    | .abort => (.failure, s1)
+    | .none => (.ok, s1)
+    | .found c b =>
+      let s2 := { s1 with cell := c, bary := b }
+      -- the donor found by the sequential search is local
+      let s3 := if s2.cell ≠ EMPTY then { s2 with part := bg.rank } else s2
+      (.ok, s3)
+  else (.ok, s1)
+
 /-- `ref_interp_locate_between(ref_interp, node0, node1, new_node)` (as repaired in /repo 7d5a551).
     `n0`, `n1`: `(cell, part)` of the end nodes, `none` for `REF_EMPTY == node`.  Always `REF_SUCCESS` unless an
     inner `RSS` fires. -/
 def locateBetween (bg : Bg P B M) (n0 n1 : Option (Int × Int)) (s : NodeSt P B M) : Status × NodeSt P B M :=
   let s := { s with cell := EMPTY } -- initialize new_node locate
-  match betweenWalk bg n0 s.xyz with
+  match betweenWalks bg n0 n1 s.xyz with
   | .error _ => (.failure, s)
-  | .ok w0 =>
-    let w := match w0 with
-      | some r => Except.ok (some r)
-      | none => betweenWalk bg n1 s.xyz
-    match w with
-    | .error _ => (.failure, s)
-    | .ok w =>
-      let s1 := match w with
-        | some (c, p, b) => { s with cell := c, part := p, bary := b }
-        | none => s
-      if !bg.para ∧ s1.cell = EMPTY then
-        match bg.seq s1.xyz with
-        | .abort => (.failure, s1)
-        | .none => (.ok, s1)
-        | .found c b =>
-          let s2 := { s1 with cell := c, bary := b }
-          -- the donor found by the sequential search is local
-          let s3 := if s2.cell ≠ EMPTY then { s2 with part := bg.rank } else s2
-          (.ok, s3)
-      else (.ok, s1)
+  | .ok w => betweenFinish bg s w
 
 /-- `ref_metric_interpolate_between(ref_grid, node0, node1, new_node)`; the stored metric of `new_node` on entry is
     the edge interpolation `ref_node_interpolate_edge` has just written -/
